@@ -132,10 +132,25 @@ fn run_cli_case(prop: &str, bin: &Path, dir: &Path, case: &ProcCase) -> Option<V
     }
     let tmp = dir.join("tmp");
     std::fs::create_dir_all(&tmp).ok()?;
-    let out = Command::new(bin).arg(cmd).args(args.iter().map(|a| dir.join(a))).env("TMPDIR", &tmp).stdin(Stdio::null()).output().ok()?;
-    let stdout = String::from_utf8_lossy(&out.stdout).to_string();
-    let stderr = String::from_utf8_lossy(&out.stderr).to_string();
-    let code = out.status.code();
+    // stdout/stderr go to files so that a process that hangs can be killed without losing a reader
+    let out_path = dir.join("stdout.txt");
+    let err_path = dir.join("stderr.txt");
+    let mut child = Command::new(bin)
+        .arg(cmd)
+        .args(args.iter().map(|a| dir.join(a)))
+        .env("TMPDIR", &tmp)
+        .stdin(Stdio::null())
+        .stdout(std::fs::File::create(&out_path).ok()?)
+        .stderr(std::fs::File::create(&err_path).ok()?)
+        .spawn()
+        .ok()?;
+    let status = match wait_with_deadline(&mut child, 60) {
+        Some(s) => s,
+        None => return Some(viol(prop, "hang", format!("`ironplcc {cmd} {args:?}` ({label}) did not terminate within 60 s and was killed"))),
+    };
+    let stdout = String::from_utf8_lossy(&std::fs::read(&out_path).unwrap_or_default()).to_string();
+    let stderr = String::from_utf8_lossy(&std::fs::read(&err_path).unwrap_or_default()).to_string();
+    let code = status.code();
     let exit_ok = code == Some(0);
     let codes = error_codes(&stderr);
     let describe = format!("`ironplcc {cmd} {args:?}` ({label}) exit={code:?} stdout-tail={:?} codes={codes:?}; in-process prediction: ok={predicted_ok} codes={predicted_codes:?}", stdout.lines().last().unwrap_or(""));
@@ -163,6 +178,24 @@ fn run_cli_case(prop: &str, bin: &Path, dir: &Path, case: &ProcCase) -> Option<V
         }
     }
     None
+}
+
+/// Waits for the child for at most `secs` seconds of wall clock (used for nothing else); kills it
+/// and returns None if it is still running then.
+fn wait_with_deadline(child: &mut std::process::Child, secs: u64) -> Option<std::process::ExitStatus> {
+    let started = std::time::Instant::now();
+    loop {
+        match child.try_wait() {
+            Ok(Some(s)) => return Some(s),
+            Ok(None) if started.elapsed().as_secs() >= secs => {
+                let _ = child.kill();
+                let _ = child.wait();
+                return None;
+            }
+            Ok(None) => std::thread::sleep(std::time::Duration::from_millis(5)),
+            Err(_) => return None,
+        }
+    }
 }
 
 fn frame(v: &Value) -> Vec<u8> {
@@ -247,10 +280,20 @@ fn run_lsp_case(prop: &str, bin: &Path, dir: &Path, case: &ProcCase) -> Option<V
         let _ = stderr.read_to_string(&mut s);
         s
     });
-    let mut out_bytes = vec![];
-    let _ = stdout.read_to_end(&mut out_bytes);
-    let status = child.wait().ok()?;
+    let out_reader = std::thread::spawn(move || {
+        let mut b = vec![];
+        let _ = stdout.read_to_end(&mut b);
+        b
+    });
+    let status = match wait_with_deadline(&mut child, 60) {
+        Some(s) => s,
+        None => {
+            // killed: the pipes are closed now, the helper threads end on their own
+            return Some(viol(prop, "lsp-hang", "the shipped binary did not terminate within 60 s after shutdown and exit had been written, and was killed".to_string()));
+        }
+    };
     drop(writer.join());
+    let out_bytes = out_reader.join().unwrap_or_default();
     let err_text = err_reader.join().unwrap_or_default();
     let outputs = parse_frames(&out_bytes);
     let got: Vec<String> = outputs.iter().filter_map(summarise_output).collect();
